@@ -48,6 +48,44 @@ CLAIMED["C10"] = dict(
     technique="Coq proof (fuel induction against an inductive spec) + vm_compute correspondence",
     design_ref="DESIGN.md section 5 C10")
 
+CLAIMED["C04"] = dict(
+    category="proof",
+    text="C04_sync_fifo_once: for every machine, state and bound, the sync drain loop begins the queued events in FIFO order, each exactly once, as a "
+         "prefix of (queue ++ events appended by processing); processing an event never dequeues and never begins another event (C04_not_reentrant, "
+         "C04_processing_only_appends - a frame theorem over ALL of entry/exit/actions/done/scheduling); the async consumer begins one event per "
+         "iteration. 'Nothing is discarded' is refuted for the per-drain bound (F11) and the async chain breaker (F23) with kernel-checked witnesses; "
+         "both are recorded findings. Tied to the code by K-macro with send_events bursts, raising actions and start-up raises; OS-thread "
+         "interleavings beyond the deterministic scheduler's preemption points are outside the model.",
+    technique="Coq proof (generic frame theorem + induction on the drain counter) + vm_compute correspondence",
+    design_ref="DESIGN.md section 5 C04")
+CLAIMED["C07"] = dict(
+    category="proof",
+    text="C07_action_fault_is_truncation: a failing user action (or built-in whose callback raises) at any position of any action list is exactly "
+         "the fault-free run of the list truncated there plus the on_action_error record; no action list touches the configuration or history; "
+         "C07_atomic: an external transition that aborts midway returns with the configuration it started from - for all machines, transitions and "
+         "states. Hook / subscriber / listener faults have no effect in the model by construction: for them the assurance is the correspondence "
+         "run with every hook raising. Tied to the code by K-macro on fault machines plus a twin-run monitor.",
+    technique="Coq proof (induction on action lists; frame lemmas) + vm_compute correspondence under injected faults",
+    design_ref="DESIGN.md section 5 C07")
+CLAIMED["C13"] = dict(
+    category="proof",
+    text="The model's loops recurse on the code's own counters; theorems state the bounds: one drain begins <= maxIterations events, the eventless "
+         "loop takes <= maxIterations steps, chains that stop earlier are not cut, the cut is recorded and not an error, the async chain breaker "
+         "drops the next event once the raise depth exceeds the bound. The async consumer loop has explicit fuel: C13_async_fanout_refuted shows a "
+         "machine on which it is still busy after 300 iterations (finding F24). Tied to the code by K-macro on self-feeding machines at / below / "
+         "above the bound on both engines, with a watchdog.",
+    technique="Coq proof (structural recursion on the code's counters) + vm_compute correspondence + watchdog",
+    design_ref="DESIGN.md section 5 C13")
+CLAIMED["C14"] = dict(
+    category="proof",
+    text="C14_*_edges: for every machine, event and interpreter state, start / send / send_events / the async loop move the status only along "
+         "uninitialized -> running -> (done | error) -> stopped, running -> stopped (a frame theorem through all of entry, exit, actions, services "
+         "failing, settling and draining); start is idempotent while running and refuses a stopped interpreter; send is inert when not running; "
+         "stop is a single edge, idempotent and leaves nothing armed; a failed async start leaves nothing armed (a defect found while proving this "
+         "was repaired by a fix: commit). Liveness of OS threads / tasks after stop() is monitored through the interpreter's registries, not proved.",
+    technique="Coq proof (generic frame theorem over status reachability) + vm_compute correspondence (K-life)",
+    design_ref="DESIGN.md section 5 C14")
+
 PENDING_REASON = "not claimed yet: the check for this property is still being built in this round (DESIGN.md section 5 has the plan)"
 
 
